@@ -194,6 +194,16 @@ def apiDelete (s : State) (f : FileS) : State :=
   let s2 := (lsSet s1 .remove (some f.root) f.root).1
   { s2 with cp := delRootCid s2.cp f, ci := ChunkInfo.delFile s2.ci f.root }
 
+/-- `DELETE /aurora/{root}` overlapping with another API operation `during` (an upload or a DELETE of
+    another file) that runs to completion while the delete handler is held at the entry of
+    `ChunkInfo.DelFile`.  The handler has done nothing yet that depends on the state (it parsed the
+    address), and `DelFile` takes chunkinfo's `syncLk`: the list of unshared chunks is computed by the
+    `del` callback INSIDE that critical section (generated fact `C16_delete_list_computed_under_lock`),
+    from the reference counts as they are then.  So the overlap is the sequential composition in the
+    order the lock enforces: first `during`, then the whole delete. -/
+def apiDeleteHeld (s : State) (f : FileS) (during : State → State) : State :=
+  apiDelete (during s) f
+
 def fileOfRoot (s : State) (r : Addr) : Option FileInfo :=
   (s.files.find? (fun e => e.2.fs.root == r && !e.2.raw)).map (·.2)
 
